@@ -39,6 +39,7 @@ fn main() {
         "loc-replay" => xv::loc::cmd_replay(rest),
         "locfn-replay" => xv::loc::cmd_fn_replay(rest),
         "textcodec-record" => xv::textcodec::cmd_record(rest),
+        "clone-record" => xv::clone::cmd_record(rest),
         other => {
             eprintln!("unknown subcommand {}", other);
             2
